@@ -42,6 +42,7 @@ def run(prop, gi, g, tier, known, do_replay):
         bad = [o for o in lst if o["status"] == "violated"]
         inc = [o for o in lst if o["status"] == "inconclusive"]
         T["passed"] += len(lst) - len(bad) - len(inc)
+        T["nontrivial"] = T.get("nontrivial", 0) + len(lst) - len(bad) - len(inc)
         if "witness" in name and not bad and not inc:
             T["covers"] += 1
         if bad:
